@@ -901,6 +901,13 @@ func (x *exec) ghostAfterCall(st *State, ins *ssa.Call, res Val) {
 		} else if res != nil && sig.Results().Len() == 1 {
 			se.vars["result0"] = specVal{V: res, T: sig.Results().At(0).Type()}
 		}
+		// arg0 .. argN: the values the call was made with (arg0 is the receiver of a method call)
+		for i, a := range ins.Call.Args {
+			se.vars[fmt.Sprintf("arg%d", i)] = specVal{V: x.get(st, a), T: a.Type()}
+		}
+		if ins.Call.IsInvoke() {
+			se.vars["recv0"] = specVal{V: x.get(st, ins.Call.Value), T: ins.Call.Value.Type()}
+		}
 		x.execGhost(st, g, se)
 	}
 }
